@@ -587,6 +587,21 @@ def Call.next : Call → Sys
   | .shmFree s => s.next
   | .lockOp _ _ s => s.next
 
+def ShmSt.file (s : ShmSt) : KeyFile :=
+  match s.pc with
+  | .cSem st => st.h.file
+  | .kSem st => st.h.file
+  | _ => .shm s.h.name
+
+/-- ghost: the key file the machine is working on (what the harness prints for semget / shmget) -/
+def Call.file : Call → KeyFile
+  | .semNew _ s => s.h.file
+  | .semFree s => s.h.file
+  | .semOp _ s => s.h.file
+  | .shmNew _ s => s.file
+  | .shmFree s => s.file
+  | .lockOp _ _ s => s.h.file
+
 /-- ghost: the key-file name a shmget of this call creates a segment under -/
 def Call.name : Call → Nat
   | .shmNew _ s => s.h.name
@@ -632,6 +647,7 @@ structure Ev where
   pid : Pid
   sys : Sys
   res : Res
+  file : KeyFile := .sem 0
 deriving DecidableEq, Repr
 
 structure G where
@@ -771,7 +787,7 @@ def G.step (g : G) (t : Tid) (intr : Bool) : G :=
   | some c =>
     let p := g.pidOf t
     let (os', r) := sysStep p intr c.next g.os c.name
-    let g' := { g with os := os', log := ⟨t, p, c.next, r⟩ :: g.log }
+    let g' := { g with os := os', log := ⟨t, p, c.next, r, c.file⟩ :: g.log }
     match c.after r with
     | .cont c' => g'.setCall t (some c')
     | .done (ret, nh) =>
@@ -810,7 +826,7 @@ def runCall (g : G) (t : Tid) (script : List Nat) : Nat → G
       let g1 := (List.replicate n (Action.step t true)).foldl exec g
       let g2 := g1.step t false
       match g2.log with
-      | ⟨_, _, _, .block⟩ :: _ => g2
+      | ⟨_, _, _, .block, _⟩ :: _ => g2
       | _ => runCall g2 t script.tail fuel
 
 def seqFuel : Nat := 32
